@@ -71,6 +71,8 @@ MENU = [
     ('fn-ptrs', lambda: Func('foo_ptrs', 'gpointer', [('gconstpointer', 'p'), ('void**', 'pp'), ('guint8*', 'data'), ('gsize', 'len')])),
     ('fn-gobject', lambda: Func('foo_use_object', 'GObject*', [('GObject*', 'o'), ('GVariant*', 'v'), ('GClosure*', 'c')])),
     ('fn-bool', lambda: Func('foo_flag', 'gboolean', [('_Bool', 'b'), ('gunichar', 'c'), ('gint64', 'big'), ('guint8', 'small')])),
+    ('fn-intptr', lambda: Func('foo_ptrint', 'gintptr', [('guintptr', 'u'), ('gssize', 's'), ('gsize', 'z'), ('gintptr*', 'out')])),
+    ('rec-intptr', lambda: TypedefAnon('FooPtrInts', [Field('c', 'gint8'), Field('i', 'gintptr'), Field('u', 'guintptr'), Field('t', 'gint8')])),
     ('fn-longlong', lambda: Func('foo_wide', 'long long', [('long double', 'x')])),
     ('fn-underscore', lambda: Func('_foo_private', 'void', [])),
     ('fn-inline', lambda: Func('foo_inline', 'int', [], inline=True)),
